@@ -23,7 +23,7 @@ import re
 
 _CRATE_RE = re.compile(r"(?<![A-Za-z0-9_])crate::")
 # lifetime-only generic lists (`WriteTxn::<'a>::commit`, `WriteTxn<'_>`) are noise in ids
-_LIFETIME_RE = re.compile(r"(?:::)?<'[a-z_0-9]+(?:, ?'[a-z_0-9]+)*>")
+_LIFETIME_RE = re.compile(r"(?:::)?<'[a-z_0-9]+(?:/#\d+)?(?:, ?'[a-z_0-9]+(?:/#\d+)?)*>")
 
 PKG_ALIAS = {
     ("nervusdb-api", "nervusdb_api"): "nervusdb_api",
